@@ -38,6 +38,11 @@ Inductive cv : value -> list call -> Prop :=
 | cv_obj fs cs : cfs fs cs -> cv (VObject fs VNil) (CObjectStart :: cs ++ [CEnd])
 | cv_arr items cs : cis items cs -> cv (VArray items) (CArrayStart :: cs ++ [CEnd])
 | cv_obj_empty : cv (VArray VNil) [CObjectStart; CEnd]
+(* write_start: the container kind is decided by what follows -- an explicit operator after the
+   first scalar makes it an object, anything else an array *)
+| cv_obj_unk k kd key o v cs1 fs cs2 : call_text k = Some (kd, key) -> cv v cs1 -> cfs fs cs2 ->
+    cv (VObject (FCons (Field kd key (Some o) v) fs) VNil) (CStart :: k :: COperator o :: cs1 ++ cs2 ++ [CEnd])
+| cv_arr_unk items cs : cis items cs -> cv (VArray items) (CStart :: cs ++ [CEnd])
 | cv_hdr h v cs : is_container v = true -> cv v cs -> cv (VHeader h v) (CHeader h :: cs)
 | cv_rgb r g b a v : cv v (rgb_expand r g b a) -> cv v [CRgb r g b a]
 with cf : field -> list call -> Prop :=
@@ -110,7 +115,7 @@ Proof.
   cbn [ch_value]. rewrite cbytes_cons. cbn [stok fst cbytes flat_map]. rewrite app_nil_r. f_equal.
   rewrite (vpos_pre _ Hp). destruct w as [m d st n x]. destruct Hp as [Hx Hp]. cbn in Hx, Hp. subst x.
   unfold vpost, epi_state. cbn.
-  destruct Hp as [[-> [-> | ->]] | [-> [-> | ->]]]; reflexivity.
+  destruct Hp as [[-> [-> | ->]] | [-> [-> | [-> | [-> | ->]]]]]; reflexivity.
 Qed.
 
 Lemma runw_end w m rest : w_depth w = m :: rest ->
@@ -137,13 +142,62 @@ Proof.
   intros HI w Hp _. cbn [runw Writer.step]. rewrite write_array_start_shape, (start_state_vpos _ _ _ Hp).
   set (w1 := mkwr DArray (w_mode w :: w_depth w) WArrayValueFirst true MDisabled).
   erewrite wbind_ok.
-  2:{ rewrite runw_app, (HI w1) by (repeat split; auto). erewrite wbind_ok; [reflexivity|].
-      apply (runw_end _ (w_mode w) (w_depth w)). destruct items; [reflexivity|]. rewrite ipost_cons_eq; reflexivity. }
+  2:{ rewrite runw_app, (HI w1) by (repeat split; unfold astate; auto). erewrite wbind_ok; [reflexivity|].
+      apply (runw_end _ (w_mode w) (w_depth w)). destruct items; [reflexivity|]. rewrite ipost_cons_eq; auto. }
   f_equal; [unfold vpost; destruct (w_mode w); reflexivity|].
   cbn [ch_value]. rewrite cbytes_cons, cbytes_app, cbytes_cons. change (cbytes []) with (@nil N).
   cbn [lbrace rbrace fst]. rewrite !app_nil_r, <- !app_assoc. f_equal. f_equal.
   change (dep w1) with (S (dep w)). change (pre_bytes c w1) with (nli c (S (dep w))). f_equal. f_equal.
-  destruct items; [reflexivity|]. rewrite ipost_cons_eq; reflexivity.
+  destruct items; [reflexivity|]. rewrite ipost_cons_eq; auto.
+Qed.
+
+Lemma C_arr_unk items cs : Cis items cs -> Cv (VArray items) (CStart :: cs ++ [CEnd]).
+Proof.
+  intros HI w Hp _. cbn [runw Writer.step]. rewrite write_start_shape, (start_state_vpos _ _ _ Hp).
+  set (w1 := mkwr DArray (w_mode w :: w_depth w) WFirstUnknown true MDisabled).
+  assert (Hp1 : ipos w1) by (repeat split; unfold astate; auto).
+  destruct (ipost_general w1 items Hp1) as [Hd Hn].
+  erewrite wbind_ok.
+  2:{ rewrite runw_app, (HI w1) by exact Hp1. erewrite wbind_ok; [reflexivity|].
+      apply (runw_end _ (w_mode w) (w_depth w)). exact Hd. }
+  f_equal; [unfold vpost; destruct (w_mode w); reflexivity|].
+  cbn [ch_value]. rewrite cbytes_cons, cbytes_app, cbytes_cons. change (cbytes []) with (@nil N).
+  cbn [lbrace rbrace fst]. rewrite !app_nil_r, <- !app_assoc. f_equal. f_equal.
+  change (dep w1) with (S (dep w)). change (pre_bytes c w1) with (nli c (S (dep w))). f_equal. f_equal.
+  rewrite Hn. destruct items; reflexivity.
+Qed.
+
+Lemma C_obj_unk k kd key o v cs1 fs cs2 : call_text k = Some (kd, key) -> Cv v cs1 -> Cfs fs cs2 ->
+  Cv (VObject (FCons (Field kd key (Some o) v) fs) VNil) (CStart :: k :: COperator o :: cs1 ++ cs2 ++ [CEnd]).
+Proof.
+  intros Hk HV HF w Hp _. cbn [runw Writer.step]. rewrite write_start_shape, (start_state_vpos _ _ _ Hp).
+  set (D := w_mode w :: w_depth w).
+  set (w1 := mkwr DArray D WFirstUnknown true MDisabled).
+  set (wa := mkwr DArray D WSecondUnknown false MDisabled).
+  set (w2 := mkwr DObject D WObjectValue false MDisabled).
+  set (w3 := mkwr DObject D WKey true MDisabled).
+  erewrite wbind_ok.
+  2:{ rewrite (step_scalar _ _ _ w1 Hk). change (epi_state (pre_state w1)) with wa.
+      erewrite wbind_ok; [reflexivity|].
+      assert (Hw : write_operator wa o = WOk w2 (match o with Equal => [EQ] | _ => [SP] ++ op_symbol o ++ [SP] end))
+        by reflexivity.
+      rewrite Hw. erewrite wbind_ok; [reflexivity|].
+      rewrite runw_app, (HV w2) by (try (split; [reflexivity|left; auto]); reflexivity).
+      change (vpost w2 v) with w3.
+      erewrite wbind_ok; [reflexivity|].
+      rewrite runw_app, (HF w3) by (repeat split; auto).
+      erewrite wbind_ok; [reflexivity|].
+      apply (runw_end _ (w_mode w) (w_depth w)). destruct fs; reflexivity. }
+  f_equal; [unfold vpost; destruct (w_mode w); reflexivity|].
+  cbn [ch_value ch_fields ch_field op_or_eq fields_empty close_gap].
+  rewrite cbytes_cons, !cbytes_app, !cbytes_cons. change (cbytes []) with (@nil N).
+  cbn [lbrace rbrace stok optk fst].
+  rewrite (cb_g0_value _ _ (opgap o)). change (pre_bytes c w2) with (@nil N). change (dep w2) with (S (dep w)).
+  change (pre_bytes c w1) with (nli c (S (dep w))). change (pre_bytes c w3) with (nli c (S (dep w))).
+  change (dep w3) with (S (dep w)).
+  replace (w_state (if fields_empty fs then w3 else wkey w3)) with WKey by (destruct fs; reflexivity).
+  change (no_data_yet WKey) with false. cbn iota. change (length (w_depth w)) with (dep w).
+  destruct o; cbn [opgap op_symbol app]; rewrite ?app_nil_r, <- ?app_assoc; cbn [app]; repeat (f_equal; try reflexivity).
 Qed.
 
 Lemma C_obj_empty : Cv (VArray VNil) [CObjectStart; CEnd].
@@ -232,6 +286,8 @@ Proof.
   - intros fs cs _ H. apply C_obj, H.
   - intros items cs _ H. apply C_arr, H.
   - apply C_obj_empty.
+  - intros k kd key o v cs1 fs cs2 Hk _ HV _ HF. apply C_obj_unk; assumption.
+  - intros items cs _ H. apply C_arr_unk, H.
   - intros h v cs Hc _ H. apply C_hdr; assumption.
   - intros r g b a v _ H. apply C_rgb, H.
   - intros k kd key op ops v cs Hk Hop _ H. apply C_field; assumption.
@@ -283,3 +339,56 @@ Proof.
   rewrite (parse_render (norm_fields d) (layout_w c d)); [rewrite flatten_norm; reflexivity|apply norm_wf, Hwf|apply layout_w_wf; assumption].
 Qed.
 End Calls.
+
+(* ------------------------------------------------------------------ the payloads of the scalar calls are well-formed scalars *)
+From JV Require Import Scalar.
+From JV.proofs Require Import DecimalProofs.
+Open Scope nat_scope.
+
+Lemma is_digit_not_boundary b : is_digit b = true -> is_boundary b = false.
+Proof.
+  intros H. apply is_digit_range in H.
+  assert (E : (b = 48 \/ b = 49 \/ b = 50 \/ b = 51 \/ b = 52 \/ b = 53 \/ b = 54 \/ b = 55 \/ b = 56 \/ b = 57)%N) by lia.
+  repeat (destruct E as [-> | E]; [reflexivity|]). subst. reflexivity.
+Qed.
+Lemma all_digits_nonboundary l : all_digits l = true -> forallb (fun b => negb (is_boundary b)) l = true.
+Proof.
+  induction l as [|a l IH]; [reflexivity|]. cbn [all_digits forallb]. intros H. apply andb_prop in H as [H1 H2].
+  rewrite (is_digit_not_boundary _ H1). cbn [negb andb]. apply IH, H2.
+Qed.
+Lemma digits_wf_word c l : is_digit c = true -> all_digits l = true -> wf_word (c :: l) = true.
+Proof.
+  intros Hc Hl. unfold wf_word. rewrite (all_digits_nonboundary (c :: l)) by (cbn [all_digits forallb]; rewrite Hc; exact Hl).
+  apply is_digit_range in Hc.
+  replace (N.eqb c 34) with false by (symmetry; apply N.eqb_neq; lia).
+  replace (N.eqb c 59) with false by (symmetry; apply N.eqb_neq; lia).
+  replace (N.eqb c 64) with false by (symmetry; apply N.eqb_neq; lia). reflexivity.
+Qed.
+
+Lemma dec_Z_wf z : (Z.abs z < 2 ^ 63)%Z -> wf_word (dec_Z z) = true.
+Proof.
+  intros Hz. unfold dec_Z, fmt_int.
+  assert (Hn : (Z.abs_N z < 10 ^ 40)%N) by (change (10 ^ 40)%N with 10000000000000000000000000000000000000000%N; lia).
+  destruct (canonical_nonempty _ _ (dec_N_canonical _ Hn)) as [c [tl [E [Hc Hl]]]]. rewrite E.
+  destruct (z <? 0)%Z.
+  - replace (0 - 1 - length (c :: tl)) with 0 by (cbn; lia). cbn [pad0].
+    assert (F : forallb (fun b => negb (is_boundary b)) (c :: tl) = true).
+    { apply all_digits_nonboundary. unfold all_digits in *. cbn [forallb]. rewrite Hc. exact Hl. }
+    unfold wf_word. cbn [forallb] in *. rewrite F. reflexivity.
+  - replace (0 - length (c :: tl)) with 0 by (cbn; lia). cbn [pad0]. apply digits_wf_word; assumption.
+Qed.
+Lemma dec_N'_wf n : (n < 2 ^ 63)%N -> wf_word (dec_N' n) = true.
+Proof. intros H. apply (dec_Z_wf (Z.of_N n)). lia. Qed.
+
+Lemma wf_quo_no_bare_quote s : wf_quo s = no_bare_quote s.
+Proof.
+  assert (H : forall n (s : bytes), length s <= n -> wf_quo s = no_bare_quote s).
+  { induction n as [|n IH]; intros [|x r] Hl; try reflexivity; cbn [length] in Hl; [lia|].
+    cbn [wf_quo no_bare_quote]. change BSLASH with 92%N. change QUOTE with 34%N.
+    destruct (N.eqb x 92).
+    - destruct r as [|y r']; [reflexivity|]. apply IH. cbn [length] in Hl. lia.
+    - destruct (N.eqb x 34); [reflexivity|]. cbn [negb andb]. apply IH. lia. }
+  apply (H (length s)). lia.
+Qed.
+Lemma escape_wf_quo p : wf_quo (escape p) = true.
+Proof. rewrite wf_quo_no_bare_quote. apply (proj2 (escape_roundtrip p)). Qed.
